@@ -102,6 +102,12 @@ theorem display_names_unique_partial (iso : Str → Bool) (wf : WF g n roots)
   obtain ⟨h, hN, _⟩ := sanitize_final iso wf
   exact ⟨names_injective h hN hfresh hv hw, names_welldefined h hN⟩
 
+/-- display names without the hypothesis: false of code and model, see `display_names_unique_fails` -/
+def display_names_unique_goal : Prop :=
+  ∀ (g : Graph) (n : Nat) (roots : List Nat) (iso : Str → Bool), WF g n roots →
+    ∀ v w, (sanitizeSt g n iso roots).v2j v ≠ none → (sanitizeSt g n iso roots).v2j w ≠ none →
+      sanitize g n iso roots v = sanitize g n iso roots w → SameJobV (sanitizeSt g n iso roots).v2j v w
+
 /-- **names_unique**, the full statement: distinct jobs get distinct job names (`getJobInternalName`).
 It is false of the code and of the model, see `names_unique_fails` below. -/
 def names_unique_goal : Prop :=
@@ -295,6 +301,35 @@ theorem numbering_collision_witness :
     sanitize nG 6 (fun _ => false) [0] 1 = sanitize nG 6 (fun _ => false) [0] 3 ∧
     (genJobs nG 6 [] (sanitize nG 6 (fun _ => false) [0]) [0]).map buildOrder = some none := by
   decide
+
+theorem nG_wf : WF nG 6 [0] :=
+  { dag := ⟨fun v => 6 - v, by
+      intro v d hd
+      match v, hd with
+      | 0, hd => simp [nG] at hd; subst hd; decide
+      | 1, hd => simp [nG] at hd; subst hd; decide
+      | 2, hd => simp [nG] at hd; subst hd; decide
+      | 3, hd => simp [nG] at hd; subst hd; decide
+      | 4, hd => simp [nG] at hd; subst hd; decide
+      | _ + 5, hd => simp [nG] at hd, fun v => by show 6 - v ≤ 6; omega⟩
+    depsLt := by
+      intro v d hd
+      match v, hd with
+      | 0, hd => simp [nG] at hd; subst hd; decide
+      | 1, hd => simp [nG] at hd; subst hd; decide
+      | 2, hd => simp [nG] at hd; subst hd; decide
+      | 3, hd => simp [nG] at hd; subst hd; decide
+      | 4, hd => simp [nG] at hd; subst hd; decide
+      | _ + 5, hd => simp [nG] at hd
+    rootsLt := by decide
+    vdeps := fun _ _ h => h }
+
+theorem display_names_unique_fails : ¬ display_names_unique_goal := by
+  intro h
+  obtain ⟨k, h1, h3⟩ := h nG 6 [0] (fun _ => false) nG_wf 1 3 (by decide) (by decide) numbering_collision_witness.2.2.1
+  rw [numbering_collision_witness.1] at h1
+  rw [numbering_collision_witness.2.1] at h3
+  cases h1; cases h3
 
 /-- a non-trivial instance of the hypotheses: recipe `m` with packages `m-a` (root) -> `x` -> `m-b`.  The two
 packages of `m` cannot be merged, get the names `m-a` / `m-b` from the longest prefix rule, the job graph
